@@ -32,13 +32,23 @@ fn parse_change(s: &str) -> Option<TextDocumentContentChangeEvent> {
 
 /// history tokens: `O<u>=<hextext>`  `C<u>=<chg>,<chg>`  `X<u>`  `P<u>` (text probe)  `F<u>` (folding ranges)  `M<u>` (formatting)  `H<u>` (hover at 0:6)
 pub fn seq(diag: bool, tokens: &[&str]) -> Option<String> {
+    seq_impl(diag, tokens, false)
+}
+
+/// the same run, reporting only the text probes: `R<k>=<hex text | null>` (the answer format of SPECNETTEXT)
+pub fn seq_probes(diag: bool, tokens: &[&str]) -> Option<String> {
+    seq_impl(diag, tokens, true)
+}
+
+fn seq_impl(diag: bool, tokens: &[&str], probes_only: bool) -> Option<String> {
     let rt = tokio::runtime::Builder::new_current_thread().enable_all().build().unwrap();
     rt.block_on(async move {
         let (iotx, mut iorx) = mpsc::channel::<Message>(100_000);
         let (doctx, docrx) = mpsc::channel(32);
         let broker = tokio::spawn(document::broker(docrx, iotx, diag));
         let mut events: Vec<Value> = Vec::new();
-        for tok in tokens {
+        let mut probes: Vec<String> = Vec::new();
+        for (k, tok) in tokens.iter().enumerate() {
             let kind = tok.chars().next()?;
             if kind == 'U' {
                 continue; // a request that never visits the broker: no document-related event
@@ -70,7 +80,14 @@ pub fn seq(diag: bool, tokens: &[&str]) -> Option<String> {
                 'P' => {
                     let r = features::verif_text(doctx.clone(), TextDocumentIdentifier { uri: uri(u) }).await;
                     match r {
-                        Ok(v) => events.push(json!({"r": v})),
+                        Ok(v) => {
+                            probes.push(format!("R{}={}", k, match &v {
+                                Some(t) if t.is_empty() => "-".to_string(),
+                                Some(t) => hex_str(t),
+                                None => "null".to_string(),
+                            }));
+                            events.push(json!({"r": v}))
+                        }
                         Err(_) => return Some("PANIC broker-died".to_string()),
                     }
                 }
@@ -122,6 +139,9 @@ pub fn seq(diag: bool, tokens: &[&str]) -> Option<String> {
         }
         drop(doctx);
         let _ = broker.await;
+        if probes_only {
+            return Some(probes.join(" "));
+        }
         Some(serde_json::to_string(&json!(events)).unwrap())
     })
 }
@@ -131,6 +151,10 @@ pub fn run(op: &str, args: &[&str]) -> Option<String> {
         "SEQ" => {
             let diag = *args.first()? == "1";
             seq(diag, &args[1..])
+        }
+        "SPECDOCTEXT" => {
+            let diag = *args.first()? == "1";
+            seq_probes(diag, &args[1..])
         }
         _ => None,
     }
